@@ -1,2 +1,111 @@
-/-! Driver for C01 (stub: not built yet). -/
-def main : IO Unit := pure ()
+import Drivers.Proto
+import PymocaVerif.Model.ParseCache
+/-! Driver for C01: replays a cache history on the `ParseCache` model and reports, after every
+    operation, the outcome and an abstract snapshot of the state (same shape as the harness reads
+    from the real SQLite file). -/
+open Lean Drivers PymocaVerif.ParseCache
+
+def excOfName : String → Except String Exc
+  | "unpickling" => pure .unpickling | "eof" => pure .eof | "attribute" => pure .attribute
+  | "module" => pure .moduleNotFound | "type" => pure .type_ | "value" => pure .value
+  | "index" => pure .index | "key" => pure .key
+  | s => throw s!"bad-exc {s}"
+
+def excName : Exc → String
+  | .unpickling => "unpickling" | .eof => "eof" | .attribute => "attribute" | .moduleNotFound => "module"
+  | .type_ => "type" | .value => "value" | .index => "index" | .key => "key"
+
+def at_ (a : Array Json) (i : Nat) : Json := a[i]?.getD Json.null
+
+def parseOp (j : Json) : Except String Op := do
+  let a ← j.getArr?
+  let kind ← (at_ a 0).getStr?
+  match kind with
+  | "parse" => pure (.parse (← (at_ a 1).getNat?) (← (at_ a 2).getInt?) (← (at_ a 3).getBool?) (← (at_ a 4).getBool?))
+  | "reload" => pure .reload
+  | "setver" => pure (.setVersion (← (at_ a 1).getNat?) (← (at_ a 2).getBool?))
+  | "tick" => pure (.tick (← (at_ a 1).getNat?))
+  | "setinc" => pure (.setInc (← (at_ a 1).getNat?))
+  | "centry" => do
+    let x ← (at_ a 1).getNat?
+    let v ← (at_ a 2).getNat?
+    match ← (at_ a 3).getStr? with
+    | "none" => pure (.corruptEntry x v (.good none))
+    | "bad" => pure (.corruptEntry x v (.bad (← excOfName (← (at_ a 4).getStr?))))
+    | k => throw s!"bad-blob {k}"
+  | "clayout" => do
+    let t ← match ← (at_ a 1).getStr? with
+      | "models" => pure Tbl.models | "meta" => pure Tbl.metadata | k => throw s!"bad-table {k}"
+    let how ← match ← (at_ a 2).getStr? with
+      | "drop" => pure LayoutDamage.drop | "alien" => pure .alien | "nopk" => pure .noPk
+      | "delcreated" => pure .delCreated | "delprune" => pure .delPrune | k => throw s!"bad-damage {k}"
+    pure (.corruptLayout t how)
+  | "cfile" => do
+    let how ← match ← (at_ a 1).getStr? with
+      | "delete" => pure FileDamage.delete | "empty" => pure .empty | "text" => pure .text
+      | "header" => pure .header | k => throw s!"bad-damage {k}"
+    pure (.corruptFile how)
+  | "foreign" => pure (.foreignWrite (← (at_ a 1).getNat?) (← (at_ a 2).getNat?) (← (at_ a 3).getInt?))
+  | k => throw s!"bad-op {k}"
+
+def optNat : Option Nat → Json
+  | none => Json.null
+  | some n => Json.num (n : Int)
+
+def optInt : Option Int → Json
+  | none => Json.null
+  | some n => Json.num n
+
+def blobJson : Blob → Json
+  | .good t => Json.arr #[Json.str "good", optNat t]
+  | .bad e => Json.arr #[Json.str "bad", Json.str (excName e)]
+
+def snapJson : DbFile → Json
+  | .garbage => Json.mkObj [("file", "garbage")]
+  | .db m mt =>
+    let mj := match m with
+      | none => Json.null
+      | some mm =>
+        let lay := match mm.layout with | .ok => "ok" | .noPk => "nopk" | .alien => "alien"
+        Json.mkObj [("layout", lay),
+          ("rows", Json.arr ((if mm.layout = .alien then [] else mm.rows).map fun r =>
+            Json.arr #[Json.num (r.key : Int), Json.num (r.ver : Int), blobJson r.blob, Json.num r.lastHit]).toArray)]
+    let tj := match mt with
+      | none => Json.null
+      | some .alien => Json.str "alien"
+      | some (.ok c p) => Json.mkObj [("created", optInt c), ("prune", optInt p)]
+    Json.mkObj [("file", "db"), ("models", mj), ("meta", tj)]
+
+def resJson : Option Res → Json
+  | none => Json.null
+  | some (.value t) => Json.mkObj [("value", optNat t)]
+  | some (.raised .db) => Json.mkObj [("raised", "db")]
+  | some (.raised (.unpickle e)) => Json.mkObj [("raised", Json.str ("unpickle:" ++ excName e))]
+
+/-- the table `[[version, text, tree|null], …]` as a function (absent = `none`) -/
+def pfOf (tbl : List (Nat × Nat × Option Nat)) (v x : Nat) : Option Nat :=
+  match tbl.find? (fun e => e.1 == v && e.2.1 == x) with
+  | some e => e.2.2
+  | none => none
+
+def handle (req : Json) : Except String Json := do
+  let op ← getStr req "op"
+  match op with
+  | "cache.run" => do
+    let caught ← (← getArr req "caught").toList.mapM (·.getStr?)
+    let tbl ← (← getArr req "pf").toList.mapM fun e => do
+      let a ← e.getArr?
+      let t : Option Nat ← (match at_ a 2 with
+        | Json.null => pure none
+        | j => do pure (some (← j.getNat?)))
+      pure ((← (at_ a 0).getNat?), (← (at_ a 1).getNat?), t)
+    let t0 ← getInt req "t0"
+    let ops ← (← getArr req "ops").toList.mapM parseOp
+    let cfg : Cfg := ⟨caught⟩
+    let outs := run cfg (pfOf tbl) (St.initial t0) ops
+    let js := outs.map fun (s, r) =>
+      Json.mkObj [("res", resJson r), ("snap", snapJson s.file), ("init", s.init), ("now", Json.num s.now)]
+    pure (Json.mkObj [("ok", true), ("steps", Json.arr js.toArray)])
+  | o => throw s!"unknown-op {o}"
+
+def main : IO Unit := serve handle
